@@ -465,6 +465,18 @@ pub struct Report {
     pub exhaustive: bool,
     pub deviation_bound_completed: String,
     pub extra: BTreeMap<String, serde_json::Value>,
+    /// the same models explored by the binary built with debug assertions and overflow checks (second pass)
+    pub profile_models: Vec<ModelStats>,
+}
+
+pub const CHECKED_SUFFIX: &str = " [checked profile]";
+
+/// what a second-profile child hands back to its parent
+#[derive(Serialize, serde::Deserialize)]
+pub struct ProfileSummary {
+    pub models: Vec<ModelStats>,
+    pub violations: Vec<FoundViolation>,
+    pub machinery_errors: Vec<String>,
 }
 
 #[derive(Debug)]
@@ -547,6 +559,25 @@ impl Report {
             exhaustive: true,
             deviation_bound_completed: String::new(),
             extra: BTreeMap::new(),
+            profile_models: vec![],
+        }
+    }
+
+    /// merge the exploration of the same property by the checked-profile binary: a violation whose key the
+    /// release pass did not report is added (its replay runs under the checked binary)
+    pub fn merge_profile(&mut self, sum: ProfileSummary) {
+        for mut m in sum.models {
+            m.model.push_str(CHECKED_SUFFIX);
+            self.profile_models.push(m);
+        }
+        for mut v in sum.violations {
+            if !self.violations.iter().any(|x| x.v.key == v.v.key) {
+                v.model.push_str(CHECKED_SUFFIX);
+                self.violations.push(v);
+            }
+        }
+        for e in sum.machinery_errors {
+            self.machinery_errors.push(format!("checked profile: {}", e));
         }
     }
 
@@ -620,7 +651,22 @@ impl Report {
     }
 
     /// Write evidence, print verdict lines, return the process exit code.
-    pub fn finish(self) -> i32 {
+    pub fn finish(mut self) -> i32 {
+        if let Ok(path) = std::env::var("VERIF_PROFILE_CHILD") {
+            // second-profile child: hand everything to the parent, which judges and writes the evidence
+            let states: u64 = self.models.iter().map(|m| m.states).sum();
+            if states == 0 && self.machinery_errors.is_empty() {
+                self.machinery_errors.push("nothing explored".into());
+            }
+            let sum = ProfileSummary { models: self.models, violations: self.violations, machinery_errors: self.machinery_errors };
+            return match std::fs::write(&path, serde_json::to_string(&sum).unwrap()) {
+                Ok(()) => 0,
+                Err(e) => {
+                    eprintln!("cannot write {}: {}", path, e);
+                    2
+                }
+            };
+        }
         let wall = self.started.elapsed().as_secs_f64();
         let known = load_known_findings();
         // group violations by finding key; first (lowest depth, BFS order) is the representative
@@ -712,6 +758,14 @@ impl Report {
         });
         for (k, v) in &self.extra {
             coverage[k] = v.clone();
+        }
+        if !self.profile_models.is_empty() {
+            coverage["second_pass_checked_profile"] = serde_json::json!({
+                "what": "the same models explored again by the binary built with debug assertions and overflow checks in every crate (cfg(debug_assertions) code paths, debug_assert side effects, arithmetic that wraps silently in release); not added to the totals above",
+                "states": self.profile_models.iter().map(|m| m.states).sum::<u64>(),
+                "evaluations": self.profile_models.iter().map(|m| m.evaluations).sum::<u64>(),
+                "models": self.profile_models,
+            });
         }
         let ev = serde_json::json!({
             "property_id": self.property,
